@@ -117,6 +117,9 @@ TEMPLATES = ["X", "`X`", "``X``", "```X\nb\n```\n", "``` a X\nb\n```\n", "~~~ X\
              "<?X?>", "<![CDATA[X]]>", "<div X>\na\n</div>\n", "&X;", "&#X;", "~~X~~", "*X*", "**X**", "> X\n",
              "- X\n", "2. X\n", "123456789. X\n", "http://a/X", "www.a.b/X", "x@y.z X", "\"X\"", "'X'", "X  \nX\\\nX\nX",
              "-X-\n\n(c) X ... -- +-X",
+             # attribute values that span lines (title, alt with a soft break), metacharacters on the later line
+             "[a](u \"b\nX\")", "[a](u 'b\nc\nX')", "![b\nX](u)", "![b\nc X](u \"d\nX\")", "[a]: u \"b\nX\"\n\n[a]\n",
+             "[a]: u\n 'b\n X'\n\n![a]\n",
              # destinations that pass the data:image whitelist, with metacharacters after the prefix
              "[a](data:image/png;X)", "![a](data:image/gif;X)", "<data:image/jpeg;X>", "[a]: data:image/webp;X\n\n[a]\n",
              "[a](<data:image/png;X> \"X\")", "![X](DATA:IMAGE/PNG;X)"]
@@ -138,6 +141,15 @@ def kitchen():
     for route in (["setitem", "html", False], ["setattr", "html", False], ["update", {"html": False}]):
         out.append(C.cfg("commonmark", on, enable=C.RULE_SW, linkify="stub", post=[["render_first", "<b>x</b>\n\n<div>\n"], route]))
     out.append(C.cfg("js-default", {"html": True}, post=[["setitem", "html", False]]))
+    # another instance of the same preset was constructed before with html switched on through options_update:
+    # the shared preset must not remember it
+    for pset in ("js-default", "zero", "commonmark"):
+        rest = {"linkify": False, "typographer": False, "breaks": False, "xhtmlOut": False, "langPrefix": "language-",
+                "quotes": "“”‘’", "maxNesting": 20, "highlight": None}
+        if pset == "commonmark":
+            rest["html"] = False
+        # (every option except html is given explicitly, so only a remembered html=True can change the outcome)
+        out.append(dict(C.cfg(pset, rest, enable=["table"]), pre=[["construct", pset, {"html": True}]]))
     # core pipeline rules off one at a time (any rule subset): output must still be renderer-made markup
     for r in ("inline", "block", "normalize", "linkify", "replacements"):
         out.append(C.cfg("js-default", {"html": False, "typographer": True}, post=[["core_disable", r]]))
